@@ -24,9 +24,10 @@ ALPHA = {
             'discrete:=T', 'discrete:=F', 'step'],
     'mps': ['train_nas_only', 'train_net_only', 'train_net_and_nas',
             'temperature:=0.5', 'temperature:=2.0', 'hard:=T', 'hard:=F', 'gumbel:=T', 'gumbel:=F',
-            'disable:=T', 'disable:=F', 'step'],
+            'disable:=T', 'disable:=F', 'temperature:=0.5+hard:=T', 'hard:=F+gumbel:=T', 'step'],
     'supernet': ['train_nas_only', 'train_net_only', 'train_net_and_nas',
-                 'temperature:=0.5', 'temperature:=2.0', 'hard:=T', 'hard:=F', 'step'],
+                 'temperature:=0.5', 'temperature:=2.0', 'hard:=T', 'hard:=F',
+                 'temperature:=2.0+hard:=T', 'step'],
 }
 
 
@@ -110,6 +111,15 @@ class Machine:
                 is_nas = id(p) in nas_ids
                 self.flags[id(p)] = {'train_nas_only': is_nas, 'train_net_only': not is_nas,
                                      'train_net_and_nas': True}[op]
+        elif '+' in op:
+            # several sampling options in ONE call
+            kw = {}
+            for part in op.split('+'):
+                name, val = part.split(':=')
+                v = float(val) if name == 'temperature' else (val == 'T')
+                kw['disable_sampling' if name == 'disable' else name] = v
+                self.opts[name] = v
+            must(res, op, M.update_softmax_options, **kw)
         elif ':=' in op:
             name, val = op.split(':=')
             if name in ('features', 'rf', 'dilation'):
